@@ -34,6 +34,10 @@ pub struct VM {
     instructions: Vec<u8>,
     ip: usize,
     bp: u16,
+
+    /// Manages the memory of all objects created by (or handed to) this VM.
+    /// It lives as long as the VM, so values stored in globals survive in between runs.
+    gc: GC,
 }
 
 impl VM {
@@ -49,6 +53,7 @@ impl VM {
             instructions: Vec::new(),
             ip: 0,
             bp: 0,
+            gc: GC::new(),
         }
     }
 
@@ -174,6 +179,14 @@ impl VM {
 
     /// Executes the given Bytecode inside the context of this VM
     pub fn run(&mut self, code: Bytecode) -> Result<Object, Error> {
+        // Take the garbage collector out of self for the duration of the run, so it can be borrowed independently
+        let mut gc = std::mem::replace(&mut self.gc, GC::new());
+        let result = self.run_with_gc(code, &mut gc);
+        self.gc = gc;
+        result
+    }
+
+    fn run_with_gc(&mut self, code: Bytecode, gc: &mut GC) -> Result<Object, Error> {
         #[cfg(feature = "debug")]
         {
             println!("Bytecode (raw)= \n{:?}", &code.instructions);
@@ -202,9 +215,7 @@ impl VM {
         crate::verif::on_run_start(&self.instructions, &constants);
         let mut final_result = Object::null();
 
-        // Construct a new garbage collector
-        // And allow to manage memory for constants
-        let gc = &mut GC::new();
+        // Allow the garbage collector to manage memory for (new) constants
         for c in &constants {
             gc.maybe_trace(*c)
         }
